@@ -13,6 +13,7 @@ import (
 	"strings"
 
 	"golang.org/x/tools/go/ssa"
+	"golang.org/x/tools/go/types/typeutil"
 )
 
 // E6 — writer/reader tables.  See DESIGN.md §3/E6.
@@ -331,8 +332,15 @@ func (p *Program) ruleCircleConvention(c *Check) {
 				} else {
 					straight = false
 				}
-			} else if sc := cl.Call.StaticCallee(); sc != nil && sc.Name() == "appendJSONFloat" {
-				sb.WriteString("0")
+			} else if sc := cl.Call.StaticCallee(); sc != nil && len(sc.Params) > 0 && isByteSlice(sc.Params[0].Type()) && sc.Signature.Results().Len() == 1 && isByteSlice(sc.Signature.Results().At(0).Type()) {
+				// a writer of the append family emits one JSON value (that it does is E5.json's business): a placeholder
+				ph := "0"
+				for _, prm := range sc.Params[1:] {
+					if nt, ok := types.Unalias(prm.Type()).(*types.Named); ok && nt.Obj().Name() == "Point" && nt.Obj().Pkg() == p.Geom.Types {
+						ph = `"<position>"` // the position writer
+					}
+				}
+				sb.WriteString(ph)
 			} else if bi, ok := cl.Call.Value.(*ssa.Builtin); ok && bi.Name() == "append" {
 				for _, a := range cl.Call.Args[1:] {
 					if k, ok := a.(*ssa.Const); ok && k.Value != nil {
@@ -364,7 +372,9 @@ func (p *Program) ruleCircleConvention(c *Check) {
 	good := get("type") == "Feature" && get("geometry", "type") == "Point" && get("properties", "type") == "Circle" &&
 		get("properties", "radius_units") == "m" && get("properties", "radius") != nil
 	if arr, ok := get("geometry", "coordinates").([]interface{}); !ok || len(arr) != 2 {
-		good = false
+		if get("geometry", "coordinates") != "<position>" {
+			good = false
+		}
 	}
 	c.Expect(good, "E6.circle", con, p.declPos(m), "Feature/Point/properties{type:Circle,radius,radius_units:m}: "+sb.String(),
 		"the Circle writer does not emit the Feature/Point/properties{type:Circle,radius,radius_units:m} form: "+sb.String())
@@ -734,6 +744,7 @@ func (p *Program) ruleStride(c *Check) {
 		var problems []string
 		posAppends, valueLoops, bulk, dimsAssign, firstGuard := 0, 0, 0, 0, 0
 		var loopBound string
+		var sliceLoops [][2]string
 		ast.Inspect(fd.Body, func(n ast.Node) bool {
 			switch x := n.(type) {
 			case *ast.AssignStmt:
@@ -746,7 +757,13 @@ func (p *Program) ruleStride(c *Check) {
 						lt := types.ExprString(l)
 						if strings.HasSuffix(lt, ".values") {
 							if call.Ellipsis.IsValid() || len(call.Args) != 2 {
-								bulk++
+								// X.values = append(X.values, s[lo:lo+D]...) is the value loop in one statement
+								if sl, ok := ast.Unparen(call.Args[len(call.Args)-1]).(*ast.SliceExpr); ok && call.Ellipsis.IsValid() && len(call.Args) == 2 && sl.Low != nil && sl.High != nil {
+									lo, hi := strings.ReplaceAll(types.ExprString(sl.Low), " ", ""), strings.ReplaceAll(types.ExprString(sl.High), " ", "")
+									sliceLoops = append(sliceLoops, [2]string{lo, hi})
+								} else {
+									bulk++
+								}
 							}
 						} else if cl, ok := call.Args[1].(*ast.CompositeLit); ok && (types.ExprString(cl.Type) == "geometry.Point" || types.ExprString(cl.Type) == "Point") {
 							posAppends++
@@ -784,7 +801,7 @@ func (p *Program) ruleStride(c *Check) {
 			case *ast.KeyValueExpr:
 				// &extra{dims: byte(D)}: the stride is stored from the local D
 				if id, ok := x.Key.(*ast.Ident); ok && id.Name == "dims" {
-					if call, ok := ast.Unparen(x.Value).(*ast.CallExpr); ok && len(call.Args) == 1 {
+					if call, ok := ast.Unparen(x.Value).(*ast.CallExpr); ok && len(call.Args) == 1 && (types.ExprString(call.Fun) == "byte" || types.ExprString(call.Fun) == "uint8") {
 						dimsAssign++
 						if loopBound == "" {
 							loopBound = types.ExprString(call.Args[0])
@@ -811,6 +828,12 @@ func (p *Program) ruleStride(c *Check) {
 			}
 			return true
 		})
+		for _, sl := range sliceLoops {
+			valueLoops++
+			if loopBound != "" && sl[1] != sl[0]+"+"+loopBound && sl[1] != loopBound+"+"+sl[0] {
+				problems = append(problems, "the values appended per position are "+sl[0]+":"+sl[1]+", whose length is not the stored dimension "+loopBound)
+			}
+		}
 		if posAppends != 1 {
 			problems = append(problems, fmt.Sprintf("%d position appends (expected one per parsed position, in one place)", posAppends))
 		}
@@ -833,86 +856,113 @@ func (p *Program) ruleStride(c *Check) {
 			o.Path = problems
 		}
 	}
-	// writer
+	// writer: in appendJSONPoint (or a helper it hands the extra block to) the extra ordinates of
+	// position idx are read at values[idx*dims + i] for i < dims, dims being the stored stride —
+	// decided on the normal form of the index expression (locals substituted, operand order free)
 	wf := p.Func("geojson", "appendJSONPoint")
-	fd := p.Decl(wf)
-	if fd == nil {
+	if p.Decl(wf) == nil {
 		c.Undecided("E6.stride", "geojson.appendJSONPoint#stride", "", "writer not found")
 		return
 	}
-	good := false
-	pkg := p.DeclPkg(wf)
-	env := newTermEnv(pkg, fd)
-	// single-assignment locals are substituted (x := e), except loop variables
-	var bindLets func(list []ast.Stmt)
-	bindLets = func(list []ast.Stmt) {
-		for _, st := range list {
-			switch x := st.(type) {
-			case *ast.AssignStmt:
-				if x.Tok == token.DEFINE && len(x.Lhs) == len(x.Rhs) {
-					for i, l := range x.Lhs {
-						if id, ok := l.(*ast.Ident); ok {
-							if o := pkg.TypesInfo.Defs[id]; o != nil {
-								env.bind[o] = env.term(x.Rhs[i])
-							}
-						}
-					}
-				}
-			case *ast.IfStmt:
-				bindLets(x.Body.List)
-				if b, ok := x.Else.(*ast.BlockStmt); ok {
-					bindLets(b.List)
-				}
-			case *ast.ForStmt:
-				bindLets(x.Body.List)
-			case *ast.BlockStmt:
-				bindLets(x.List)
-			}
-		}
-	}
-	bindLets(fd.Body.List)
-	isDims := func(t *Term) bool {
-		return t != nil && t.Kind == "conv" && len(t.Args) == 1 && t.Args[0].Kind == "field" && t.Args[0].Var != nil && t.Args[0].Var.Name() == "dims"
-	}
-	isIdx := func(t *Term) bool {
-		if t == nil || t.Kind != "param" {
-			return false
-		}
-		prm := wf.Type().(*types.Signature).Params().At(t.Idx)
-		b, ok := prm.Type().Underlying().(*types.Basic)
-		return ok && b.Info()&types.IsInteger != 0
-	}
-	ast.Inspect(fd.Body, func(n ast.Node) bool {
-		fs, ok := n.(*ast.ForStmt)
-		if !ok {
-			return true
-		}
-		cond, ok := fs.Cond.(*ast.BinaryExpr)
-		if !ok || cond.Op != token.LSS || !isDims(env.term(cond.Y)) {
-			return true
-		}
-		iv := types.ExprString(cond.X)
-		ast.Inspect(fs.Body, func(m ast.Node) bool {
-			ix, ok := m.(*ast.IndexExpr)
-			if !ok || !strings.HasSuffix(types.ExprString(ix.X), ".values") {
-				return true
-			}
-			t := env.term(ix.Index)
-			if t.Kind == "op" && t.Name == "+" && len(t.Args) == 2 {
-				for k := 0; k < 2; k++ {
-					prod, other := t.Args[k], t.Args[1-k]
-					if prod.Kind == "op" && prod.Name == "*" && len(prod.Args) == 2 && other.Kind == "opaque" && other.Name == iv {
-						if (isIdx(prod.Args[0]) && isDims(prod.Args[1])) || (isIdx(prod.Args[1]) && isDims(prod.Args[0])) {
-							good = true
-						}
-					}
+	good, why := false, "no read of the extra values inside a loop bounded by the stored stride was found"
+	fns := []*types.Func{wf}
+	if fd := p.Decl(wf); fd != nil {
+		pkg := p.DeclPkg(wf)
+		ast.Inspect(fd.Body, func(n ast.Node) bool {
+			if call, ok := n.(*ast.CallExpr); ok {
+				if f, ok := typeutil.Callee(pkg.TypesInfo, call).(*types.Func); ok && f.Pkg() == wf.Pkg() && f != wf && p.Decl(f) != nil {
+					fns = append(fns, f)
 				}
 			}
 			return true
 		})
-		return true
-	})
-	c.Expect(good, "E6.stride", "geojson.appendJSONPoint#stride", p.declPos(wf), "reads values[idx*dims+i] for i < dims with dims = int(ex.dims)", "the writer does not read the extra ordinates at idx*dims+i for i < dims with the stored dims")
+	}
+	for _, f := range fns {
+		fd, pkg := p.Decl(f), p.DeclPkg(f)
+		info := pkg.TypesInfo
+		casArgs = map[string]casApp{}
+		env := &casEnv{info: info, vars: map[types.Object]*casPoly{}, tup: map[types.Object][]*casPoly{}}
+		var intParams []*casPoly
+		for _, fl := range fd.Type.Params.List {
+			for _, nm := range fl.Names {
+				o := info.Defs[nm]
+				if bt, ok := o.Type().Underlying().(*types.Basic); ok && bt.Info()&types.IsInteger != 0 {
+					env.vars[o] = casAtom(nm.Name)
+					intParams = append(intParams, env.vars[o])
+				}
+			}
+		}
+		// integer locals defined once (dims := int(ex.dims), first := idx*dims), in source order
+		ast.Inspect(fd.Body, func(n ast.Node) bool {
+			as, ok := n.(*ast.AssignStmt)
+			if !ok || as.Tok != token.DEFINE || len(as.Lhs) != len(as.Rhs) {
+				return true
+			}
+			for i, l := range as.Lhs {
+				id, ok := l.(*ast.Ident)
+				if !ok || !isIntLocal(info, id) {
+					continue
+				}
+				sub := &casEval{p: p}
+				v := sub.expr(env, as.Rhs[i])
+				if sub.err == "" {
+					env.vars[info.Defs[id]] = v
+				}
+			}
+			return true
+		})
+		ast.Inspect(fd.Body, func(n ast.Node) bool {
+			fs, ok := n.(*ast.ForStmt)
+			if !ok || good {
+				return true
+			}
+			cond, ok := fs.Cond.(*ast.BinaryExpr)
+			if !ok || cond.Op != token.LSS {
+				return true
+			}
+			iv, ok := cond.X.(*ast.Ident)
+			if !ok {
+				return true
+			}
+			ceB := &casEval{p: p}
+			bound := ceB.expr(env, cond.Y)
+			if ceB.err != "" || !strings.Contains(bound.String(), ".dims") {
+				return true
+			}
+			loopEnv := &casEnv{info: info, vars: map[types.Object]*casPoly{}, tup: env.tup}
+			for k, v := range env.vars {
+				loopEnv.vars[k] = v
+			}
+			loopEnv.vars[info.ObjectOf(iv)] = casAtom(iv.Name)
+			ast.Inspect(fs.Body, func(m ast.Node) bool {
+				ix, ok := m.(*ast.IndexExpr)
+				if !ok || !strings.HasSuffix(types.ExprString(ix.X), ".values") {
+					return true
+				}
+				ceI := &casEval{p: p}
+				idx := ceI.expr(loopEnv, ix.Index)
+				if ceI.err != "" {
+					why = "the index of the extra values could not be brought to normal form (" + ceI.err + ")"
+					return true
+				}
+				for _, prm := range intParams {
+					want := casAdd(casAtom(iv.Name), casMul(prm, bound), 1)
+					if casEqual(casNormalize(idx), casNormalize(want)) {
+						good = true
+					}
+				}
+				if !good {
+					why = "the extra ordinates are read at values[" + idx.String() + "], not at values[idx*dims + i] with the stored stride " + bound.String()
+				}
+				return true
+			})
+			return true
+		})
+		if good {
+			break
+		}
+	}
+	c.Expect(good, "E6.stride", "geojson.appendJSONPoint#stride", p.declPos(wf), "reads values[idx*dims+i] for i < dims with dims the stored stride (normal form of the index)", why)
 }
 
 func in_valdesc(v *val) string {
